@@ -211,6 +211,38 @@ def run_kani(repo):
         shutil.rmtree(tmp, ignore_errors=True)
 
 
+# ---- bounded Kani twin of apply/undo (thorough tier of C03 / C04) ---------------------------
+def run_kani_moves(repo):
+    """BOUNDED stand-in, never counted as proved: StandardChessMove::apply + undo on ONE fixed board
+    (kani/moves.rs: 13 men, both kings/rooks on home squares) with a fully SYMBOLIC (from, to) pair,
+    compared with an executable transcription of the rules' successor.  Its value is a concrete
+    counterexample (CBMC trace) when a contract is refuted."""
+    tmp = tempfile.mkdtemp(prefix='vx_kani_')
+    try:
+        dst = os.path.join(tmp, 'repo')
+        subprocess.run(['rsync', '-a', '--exclude', 'target', '--exclude', '.git', repo + '/', dst + '/'], check=True)
+        shutil.copy(os.path.join(dr.VERIF, 'kani', 'moves.rs'), os.path.join(dst, 'src', 'verif_kani_moves.rs'))
+        with open(os.path.join(dst, 'src', 'lib.rs'), 'a') as f:
+            f.write('\n#[cfg(kani)] mod verif_kani_moves;\n')
+        env = dict(os.environ, CARGO_NET_OFFLINE='true')
+        cmd = ['cargo', 'kani', '--harness', 'std_apply_undo_board_a', '--output-format', 'terse']
+        t0 = time.time()
+        p = subprocess.run(cmd, cwd=dst, env=env, stdout=subprocess.PIPE, stderr=subprocess.STDOUT, text=True, timeout=3000)
+        out = p.stdout
+        if 'VERIFICATION:- SUCCESSFUL' in out:
+            res = 'SUCCESSFUL'
+        elif 'VERIFICATION:- FAILED' in out:
+            res = 'FAILED'
+        else:
+            res = 'UNKNOWN'
+        failed = re.findall(r'Failed Checks: (.*)', out)
+        return {'cmd': 'CARGO_NET_OFFLINE=true ' + ' '.join(cmd), 'result': res, 'failed_checks': failed[:8],
+                'wall_s': round(time.time() - t0, 1), 'tail': out[-1200:],
+                'bound': 'one fixed board (kani/moves.rs::board_a), all 64x64 (from,to) pairs satisfying the shape precondition, standard moves only'}
+    finally:
+        shutil.rmtree(tmp, ignore_errors=True)
+
+
 # ---- interface consistency ------------------------------------------------------
 def iface_consistent():
     """The contract of get_rook_targets / get_bishop_targets / new in u4_magic_iface.vrs must be the text
@@ -299,4 +331,12 @@ def run(pid, cfg, tier, seed):
         return {'report': rep, 'backends': ['kani-cbmc', 'native-exhaustive(python)'], 'violations': viol,
                 'exhaustive': {'what': 'magics_ok + table content for all 64 squares x all subsets of the relevance mask (rook and bishop) on every generated magic_table.rs found',
                                'files': len(rep['magic_constants']), 'cases': sum(r['cases'] for r in rep['magic_constants'])}}
+    if pid in ('C03', 'C04') and tier == 'thorough':
+        k = run_kani_moves(repo)
+        viol = []
+        if k['result'] == 'FAILED':
+            viol.append(_viol(pid, 'kani-bounded', 'StandardChessMove::apply+undo', 'kani-assertion', 'std_apply_undo_board_a',
+                              k['tail'], {'has_input': False, 'checker_cmd': k['cmd'], 'failed_checks': k['failed_checks']}))
+        return {'report': {'kani_bounded_twin': k}, 'backends': ['kani-cbmc (bounded stand-in)'], 'violations': viol,
+                'bounded': [k['bound']]}
     return None
